@@ -209,13 +209,15 @@ Fixpoint merge_loop (fuel : nat) (freq cs others : list Z) : outcome (list Z) :=
       end
   end.
 
-(* bits[size]++ for every size > 0; bits has 33 entries: size > 32 is an index panic *)
+(* bits[size]++ for every size > 0; bits has maxHuffmanCodeLength+1 = 257 entries: size > 256
+   would be an index panic.  History (finding F48, fixed in /repo): the bound was 32 and a
+   Fibonacci-like frequency vector over 33 symbols made bits[33] panic. *)
 Fixpoint count_sizes (cs : list Z) (bits : list Z) : outcome (list Z) :=
   match cs with
   | [] => Ok bits
   | s :: cs' =>
     if 0 <? s then
-      if 32 <? s then Panic else count_sizes cs' (zupd bits s (znth bits s 0 + 1))
+      if 256 <? s then Panic else count_sizes cs' (zupd bits s (znth bits s 0 + 1))
     else count_sizes cs' bits
   end.
 
@@ -233,7 +235,7 @@ Fixpoint limit_size (fuel : nat) (bits : list Z) (size : Z) : outcome (list Z) :
     match fuel with
     | O => OutOfFuel
     | S f =>
-      match find_prefix 40 bits (size - 2) with
+      match find_prefix 300 bits (size - 2) with
       | None => Panic
       | Some j =>
         let b1 := zupd bits size (znth bits size 0 - 2) in
@@ -244,15 +246,15 @@ Fixpoint limit_size (fuel : nat) (bits : list Z) (size : Z) : outcome (list Z) :
       end
     end
   else Ok bits.
-(* for size := 32; size > 16; size-- *)
+(* for size := 256; size > 16; size-- *)
 Fixpoint limit_all (sizes : list Z) (bits : list Z) : outcome (list Z) :=
   match sizes with
   | [] => Ok bits
   | s :: ss => obind (limit_size 300 bits s) (fun b => limit_all ss b)
   end.
-Definition sizes_32_17 : list Z := [32;31;30;29;28;27;26;25;24;23;22;21;20;19;18;17].
+Definition sizes_hi : list Z := rev (seqZ 17 240).   (* 256, 255, ..., 17 *)
 
-(* for size := 32; size > 0; size-- { if bits[size] > 0 { bits[size]--; break } } *)
+(* for size := 256; size > 0; size-- { if bits[size] > 0 { bits[size]--; break } } *)
 Fixpoint remove_pseudo (fuel : nat) (bits : list Z) (size : Z) : list Z :=
   match fuel with
   | O => bits
@@ -262,7 +264,7 @@ Fixpoint remove_pseudo (fuel : nat) (bits : list Z) (size : Z) : list Z :=
     else remove_pseudo f bits (size - 1)
   end.
 
-(* Values: for size 1..32, for symbol 0..255: codeSize[symbol] == size *)
+(* Values: for size 1..256, for symbol 0..255: codeSize[symbol] == size *)
 Fixpoint syms_of_size (cs : list Z) (sym size : Z) : list Z :=
   match cs with
   | [] => []
@@ -270,15 +272,15 @@ Fixpoint syms_of_size (cs : list Z) (sym size : Z) : list Z :=
                 else syms_of_size cs' (sym + 1) size
   end.
 Definition opt_values (cs : list Z) : list Z :=
-  flat_map (fun size => syms_of_size (firstn 256 cs) 0 size) (seqZ 1 32).
+  flat_map (fun size => syms_of_size (firstn 256 cs) 0 size) (seqZ 1 256).
 
 (* BuildOptimalHuffmanTable(frequencies [256]uint64): (Bits[16], Values) *)
 Definition build_optimal (freqs : list Z) : outcome (list Z * list Z) :=
   let freq := firstn 256 freqs ++ [1] in
   obind (merge_loop 258 freq (repeat 0 257) (repeat (-1) 257)) (fun cs =>
-  obind (count_sizes cs (repeat 0 33)) (fun bits =>
-  obind (limit_all sizes_32_17 bits) (fun bits' =>
-    let bits'' := remove_pseudo 33 bits' 32 in
+  obind (count_sizes cs (repeat 0 257)) (fun bits =>
+  obind (limit_all sizes_hi bits) (fun bits' =>
+    let bits'' := remove_pseudo 257 bits' 256 in
     Ok (firstn 16 (skipn 1 bits''), opt_values cs)))).
 (* ... followed by `_ = table.Build()`: the error is dropped, a panic would not be *)
 Definition build_optimal_table (freqs : list Z) : outcome (list Z * list Z) :=
